@@ -979,6 +979,10 @@ def _register_capabilities_hooks(converter: cattrs.Converter) -> cattrs.Converte
             _location_hook,
         ),
         (
+            Union[lsp_types.Location, Sequence[lsp_types.Location]],
+            _location_hook,
+        ),
+        (
             Optional[
                 Union[
                     Sequence[lsp_types.SymbolInformation],
@@ -1020,6 +1024,10 @@ def _register_capabilities_hooks(converter: cattrs.Converter) -> cattrs.Converte
         ),
         (
             Optional[Union[str, lsp_types.MarkupContent]],
+            _markup_content_hook,
+        ),
+        (
+            Union[str, lsp_types.MarkedStringWithLanguage],
             _markup_content_hook,
         ),
         (
@@ -1214,6 +1222,8 @@ def _register_required_structure_hooks(
         lsp_types.NotebookDocumentFilterScheme,
         lsp_types.NotebookDocumentFilterPattern,
     ]:
+        if object_ is None:
+            return None
         if isinstance(object_, str):
             return str(object_)
         elif "notebookType" in object_:
@@ -1227,6 +1237,9 @@ def _register_required_structure_hooks(
 
     NotebookSelectorItem = attrs.fields(
         lsp_types.NotebookCellTextDocumentFilter
+    ).notebook.type
+    OptionalNotebookSelectorItem = attrs.fields(
+        lsp_types.NotebookDocumentFilterWithCells
     ).notebook.type
     STRUCTURE_HOOKS = [
         (type(None), lambda object_, _type: object_),
@@ -1255,6 +1268,24 @@ def _register_required_structure_hooks(
             _notebook_filter_hook,
         ),
         (NotebookSelectorItem, _notebook_filter_hook),
+        (OptionalNotebookSelectorItem, _notebook_filter_hook),
+        (
+            Union[
+                lsp_types.NotebookDocumentFilterNotebookType,
+                lsp_types.NotebookDocumentFilterScheme,
+                lsp_types.NotebookDocumentFilterPattern,
+            ],
+            _notebook_filter_hook,
+        ),
+        (
+            Union[
+                lsp_types.TextDocumentFilterLanguage,
+                lsp_types.TextDocumentFilterScheme,
+                lsp_types.TextDocumentFilterPattern,
+            ],
+            _text_document_filter_hook,
+        ),
+        (Optional[Union[str, Sequence[str]]], lambda object_, _type: object_),
         (
             Union[lsp_types.LSPObject, Sequence["LSPAny"], str, int, float, bool, None],
             _lsp_object_hook,
